@@ -172,6 +172,20 @@ fn check_cf<CF: CostFunction<Sym, Cost = u64>>(eg: &EGraph<Sym>, cf: CF, cfname:
                 let m: SlotMap = sl.iter().copied().zip(img.into_iter()).collect();
                 queries.push(ident.apply_slotmap(&m));
             }
+            // renamings ONTO the class's own parameter names: every non-identity permutation of them, and a shift
+            // (s1 -> s2, s2 -> s3, .., last -> a new name)
+            if sl.len() >= 2 {
+                for p in crate::hist::perms_of(&sl) {
+                    if p != sl {
+                        let m: SlotMap = sl.iter().copied().zip(p.into_iter()).collect();
+                        queries.push(ident.apply_slotmap(&m));
+                    }
+                }
+                let mut shifted: Vec<Slot> = sl[1..].to_vec();
+                shifted.push(Slot::numeric(301));
+                let m: SlotMap = sl.iter().copied().zip(shifted.into_iter()).collect();
+                queries.push(ident.apply_slotmap(&m));
+            }
         }
         for q in queries {
             *evals += 1;
@@ -292,7 +306,7 @@ impl Prop for ExtractProp {
         vec!["cyclic_class", "class_whose_node_has_redundant_slot", "symmetric_class"]
     }
     fn rule(&self) -> String {
-        "Every ordered sequence of the stated length over union/insert operations plus four rewrite-iteration operations (one of them with patterns that repeat a slot) is executed; on the resulting e-graph, for the cost functions AstSize, depth-weighted size (1+2*sum) and a per-operator weighted size: Extractor::new, then for every live class the identity invocation and every injective renaming of its arguments into a 4-slot pool (numeric, textual, $0): extract returns, the result looks up to an invocation eq to the query, cost_rec(result) == get_best_cost == Bellman-Ford least fixpoint over eg.enodes, every free slot of the result is a query argument or a fresh slot above the pre-call watermark; also for every stale handle and through extract()/ast_size_extract(). Non-trivial = execution that did not abort.".into()
+        "Every ordered sequence of the stated length over union/insert operations plus four rewrite-iteration operations (one of them with patterns that repeat a slot) is executed; on the resulting e-graph, for the cost functions AstSize, depth-weighted size (1+2*sum) and a per-operator weighted size: Extractor::new, then for every live class the identity invocation and every injective renaming of its arguments into a 4-slot pool (numeric, textual, $0), every permutation of the class's own parameter names and a shift along them: extract returns, the result looks up to an invocation eq to the query, cost_rec(result) == get_best_cost == Bellman-Ford least fixpoint over eg.enodes, every free slot of the result is a query argument or a fresh slot above the pre-call watermark; also for every stale handle and through extract()/ast_size_extract(). Non-trivial = execution that did not abort.".into()
     }
     fn assumptions(&self) -> Vec<String> {
         vec!["histories that panic before extraction are reported as a no-answer failure (the same defect is also reported by C08 where its exploration reaches it)".into(), "cost functions are strictly monotone with u64 costs".into()]
